@@ -37,6 +37,7 @@ type Exec struct {
 
 	initHeap map[string]*Term
 	axioms   []*Term
+	preOnly  bool // callContractSig: check the precondition only (go statements)
 	nlAxioms []*Term // lemma axioms of the non-linear operators (added to a query only when needed)
 	axiomSet map[string]bool
 	strs     map[string]*Term
